@@ -2,6 +2,7 @@ package main
 
 import (
 	"bufio"
+	"bytes"
 	"encoding/json"
 	"flag"
 	"fmt"
@@ -9,6 +10,7 @@ import (
 	"os"
 	"runtime"
 	"strings"
+	"sync"
 	"time"
 	wdog "verifharness/wd"
 
@@ -138,4 +140,94 @@ func cmdPipWitness(args []string) error {
 	b, _ := json.Marshal(res)
 	fmt.Println(string(b))
 	return nil
+}
+
+func init() { commands["pipnest"] = cmdPipNest }
+
+// nestedScript: a pip:run whose body runs a probe and submits a pip:run whose body ... (depth levels)
+func nestedScript(depth int, prefix string) string {
+	tag := func(i int) string { return "END" + string(rune('A'+i/26)) + string(rune('A'+i%26)) + "X" }
+	body := fmt.Sprintf("probe --id=%s%d\n", prefix, depth-1)
+	for level := depth - 2; level >= 0; level-- {
+		body = fmt.Sprintf("probe --id=%s%d\npip:run --name=n --body=<<%s\n%s%s\n", prefix, level, tag(level+1), body, tag(level+1))
+	}
+	return "pip:run --name=" + prefix + " --body=<<" + tag(0) + "\n" + body + tag(0) + "\n"
+}
+
+// pipnest: "every accepted submission eventually finishes", for submissions made from INSIDE bodies: (a) a
+// pipeline nested `depth` levels deep (every body submits the next one), for depths below and well above the
+// number of CPUs; (b) `width` pipelines that run at the same time, each of which submits one nested pipeline.
+// All probes must run and the application scope's wait must return (watchdog).
+func cmdPipNest(args []string) error {
+	fl := flag.NewFlagSet("pipnest", flag.ExitOnError)
+	fl.Parse(args)
+	byKey := map[string]int{}
+	examples := map[string][]map[string]string{}
+	fail := func(key, op, what string) {
+		byKey[key]++
+		if len(examples[key]) < 3 {
+			examples[key] = append(examples[key], map[string]string{"key": key, "op": op, "backend": "pipeline", "what": what})
+		}
+	}
+	executed := 0
+	run := func(name, script string, probes int) {
+		executed++
+		buf := &lockedWriter{}
+		wd, err := pipx.NewWorld(buf, script, nil)
+		if err != nil {
+			fail("infra", name, err.Error())
+			return
+		}
+		done := make(chan error, 1)
+		go func() {
+			if err := wd.Boot.Run(); err != nil {
+				done <- err
+				return
+			}
+			done <- wd.App.Scopes().App().Wait()
+		}()
+		ended := func() int { return strings.Count(buf.String(), `"ev":"end"`) }
+		select {
+		case err := <-done:
+			if err != nil {
+				fail("nested-error", name, fmt.Sprintf("the run ended with an error although no command fails: %v", err))
+			} else if n := ended(); n != probes {
+				fail("nested-skipped", name, fmt.Sprintf("%d of %d bodies ran although everything was accepted and nothing failed", n, probes))
+			}
+		case <-wdog.After(15 * time.Second):
+			fail("nested-never-finishes", name, fmt.Sprintf("the accepted pipelines did not finish within 15 s: %d of %d bodies have run", ended(), probes))
+		}
+	}
+	ncpu := runtime.NumCPU()
+	for _, depth := range []int{2, 5, ncpu + 2, 2*ncpu + 3} {
+		run(fmt.Sprintf("nesting depth %d", depth), nestedScript(depth, "d"), depth)
+	}
+	for _, width := range []int{3, ncpu + 2, 2*ncpu + 3} {
+		var sc strings.Builder
+		for i := 0; i < width; i++ {
+			sc.WriteString(nestedScript(2, fmt.Sprintf("w%dx", i)))
+		}
+		run(fmt.Sprintf("%d pipelines side by side, each submitting one", width), sc.String(), 2*width)
+	}
+	out := map[string]interface{}{"executed": executed, "failures_by_key": byKey, "examples": examples, "samples": []string{}}
+	b, _ := json.Marshal(out)
+	fmt.Println(string(b))
+	return nil
+}
+
+type lockedWriter struct {
+	mu sync.Mutex
+	b  bytes.Buffer
+}
+
+func (l *lockedWriter) Write(p []byte) (int, error) {
+	l.mu.Lock()
+	defer l.mu.Unlock()
+	return l.b.Write(p)
+}
+
+func (l *lockedWriter) String() string {
+	l.mu.Lock()
+	defer l.mu.Unlock()
+	return l.b.String()
 }
